@@ -9,7 +9,8 @@ import vcommon as vc
 
 RULE = ("histories of 20-70 Vdata calls (VSattach new/r/w, VSfdefine, VSsetinterlace, VSsetfields, VSwrite, VSseek, VSread, "
         "VSdetach, Vend+Hclose+reopen, VSinquire, VSelts, VSsizeof, VFfield*, VSsetblocksize/numblocks, VSfpack, "
-        "VSsetname/VSsetclass/VSgetname/VSgetclass with lengths aimed at the header-size bookkeeping on vdatas whose header "
+        "VSfexist with unknown names in every position, names defined twice with VSfdefine (type / order / both changed, more "
+        "than nine symbols), VSsetname/VSsetclass/VSgetname/VSgetclass with lengths aimed at the header-size bookkeeping on vdatas whose header "
         "is already in the file) over 1-3 "
         "Vdatas of one file: schemas of 1..8 fields over the 30 number types (10 base types x standard/native/little-endian), "
         "orders 1..5 (and large orders for records of up to 65535 bytes), names of 1..10 characters plus 127/128/129/200 "
@@ -42,7 +43,7 @@ ASSUMPTIONS = ["several attachments of one vdata: each has its own current recor
                "distinct fields before VSread in the same attachment; seeks within 0..record count; block sizes large enough that a "
                "history needs far fewer than the 65535 refs of a file (ref exhaustion is C20); a Vdata whose file "
                "interlace is NO_INTERLACE with more than one field supports whole-table transfers from record 0 only "
-               "(DESIGN.md C07 scope note); no redefinition of a field name; record size * count < 2^31 (C20)"]
+               "(DESIGN.md C07 scope note); record size * count < 2^31 (C20)"]
 
 BASE = {3: 1, 4: 1, 20: 1, 21: 1, 22: 2, 23: 2, 24: 4, 25: 4, 5: 4, 6: 8}
 FLAV = [0, 0, 4096, 16384]
@@ -166,7 +167,25 @@ def gen_history(r, name, kind="std"):
         for f in defs:
             if f[0] in RESERVED:
                 continue
+            if r.random() < 0.25:
+                # the name is defined twice: the first definition differs in type only, order only, or both, with an
+                # element size that may differ (the later definition is the one that counts)
+                b0 = r.choice(list(BASE))
+                t0 = r.choice([b0 | r.choice(FLAV), f[1]])
+                o0 = r.choice([f[2], f[2] + 1, 1, 3])
+                if (t0, o0) != (f[1], f[2]):
+                    L.append("define %d %s %d %d" % (v, f[0], t0, o0))
             L.append("define %d %s %d %d" % (v, f[0], f[1], f[2]))
+        if len(defs) > 9 or r.random() < 0.04:
+            pass
+        if r.random() < 0.06:
+            # more than nine symbols, the last ones defined twice
+            used2 = set(f[0][:128] for f in defs)
+            for _ in range(10):
+                nm = rname(r, used2)
+                L.append("define %d %s %d %d" % (v, nm, r.choice(list(BASE)), r.randrange(1, 4)))
+                if r.random() < 0.4:
+                    L.append("define %d %s %d %d" % (v, nm, r.choice(list(BASE)), r.randrange(1, 4)))
         if mal and r.random() < 0.3:
             L.append(r.choice(["define %d zz 24 0", "define %d zz 24 65536", "define %d zz 7 1", "define %d zz 26 1",
                                "define %d zz 6 9000", "define %d a,b 24 1"]) % v)
@@ -277,8 +296,18 @@ def gen_history(r, name, kind="std"):
             L.append("field %d %d" % (v, r.randrange(len(d.fields))))
         elif k < 0.95:
             L.append("nfields %d" % v)
-        else:
+        elif k < 0.975:
             L.append(r.choice(["getname %d", "getclass %d"]) % v)
+        else:
+            pass
+        if r.random() < 0.35:
+            # VSfexist: existing names in any order, with an unknown name first / in the middle / last
+            names = [f[0] for f in d.fields]
+            sel = r.sample(names, r.randrange(1, len(names) + 1))
+            kk = r.random()
+            if kk < 0.5:
+                sel.insert(r.choice([0, 0, len(sel) // 2, len(sel)]), r.choice(["nosuch", "Zz9", names[0] + "x"]))
+            L.append("fexist %d %s" % (v, ",".join(sel)))
 
     def do_pack(v, d):
         names = [f[0] for f in d.fields]
